@@ -209,6 +209,10 @@ class Comp:
 
 
 def comp(name: str, actual: torch.Tensor, pred: torch.Tensor, err: torch.Tensor, floor: float = 0.0) -> Comp:
+    # below the smallest normal number of the storage dtype the relative rounding model does not hold (gradual underflow):
+    # an absolute floor of a few subnormal spacings per element is part of every bound
+    if actual.dtype.is_floating_point:
+        floor = floor + 4.0 * float(torch.finfo(actual.dtype).tiny) * math.sqrt(max(1, actual.numel()))
     a = actual.to(D)
     if a.shape != pred.shape:
         return Comp(name + ".shape", float("inf"), 1.0)
